@@ -33,7 +33,7 @@ FLOORS = {"quick": {"observations": 20000, "thread_interleaved_observations": 30
           "thorough": {"observations": 600000, "thread_interleaved_observations": 100000, "exception_exits": 10000, "contexts_created_without_with_inside_a_block": 8000, "blocks_left_through_generator_close": 4000}}
 
 KEYS = ["backend", "n_jobs", "verbose", "prefer", "require", "max_nbytes", "mmap_mode", "temp_folder"]
-DOM = {"backend": ["threading", "loky", "multiprocessing", "custom_threads", "custom_procs"],
+DOM = {"backend": ["threading", "loky", "multiprocessing", "custom_threads", "custom_procs", "custom_threads_noflag", "custom_noflags"],
        "n_jobs": [1, 2, 3, -1, None], "verbose": [0, 5, 60, 100],
        "prefer": ["threads", "processes", None], "require": ["sharedmem", None],
        "max_nbytes": [None, 100, "1K", "2M"], "mmap_mode": ["r", "c", "r+", None],
@@ -41,9 +41,11 @@ DOM = {"backend": ["threading", "loky", "multiprocessing", "custom_threads", "cu
 DEFAULT = {"backend": None, "n_jobs": None, "verbose": 0, "prefer": None, "require": None,
            "max_nbytes": "1M", "mmap_mode": "r", "temp_folder": None}
 UNSET = "<unset>"
-SHAREDMEM = {"threading": True, "loky": False, "multiprocessing": False, "custom_threads": True, "custom_procs": False}
+# (a backend that does not say whether it shares memory does not: custom_threads_noflag declares uses_threads only,
+# custom_noflags declares neither flag)
+SHAREDMEM = {"threading": True, "loky": False, "multiprocessing": False, "custom_threads": True, "custom_procs": False, "custom_threads_noflag": False, "custom_noflags": False}
 CLSNAME = {"threading": "ThreadingBackend", "loky": "LokyBackend", "multiprocessing": "MultiprocessingBackend",
-           "custom_threads": "CustomThreads", "custom_procs": "CustomProcs"}
+           "custom_threads": "CustomThreads", "custom_procs": "CustomProcs", "custom_threads_noflag": "CustomThreadsNoFlag", "custom_noflags": "CustomNoFlags"}
 
 
 class Boom(Exception):
@@ -70,13 +72,32 @@ def backends():
             def submit(self, func, callback=None):
                 raise NotImplementedError
 
+        class CustomThreadsNoFlag(ParallelBackendBase):
+            """written against the documented minimum: runs tasks on threads, says so, and says nothing about shared memory"""
+            uses_threads = True
+
+            def effective_n_jobs(self, n_jobs):
+                return n_jobs
+
+            def submit(self, func, callback=None):
+                raise NotImplementedError
+
+        class CustomNoFlags(ParallelBackendBase):
+            def effective_n_jobs(self, n_jobs):
+                return n_jobs
+
+            def submit(self, func, callback=None):
+                raise NotImplementedError
+
         _customs["custom_threads"] = CustomThreads
         _customs["custom_procs"] = CustomProcs
+        _customs["custom_threads_noflag"] = CustomThreadsNoFlag
+        _customs["custom_noflags"] = CustomNoFlags
     return _customs
 
 
 def mk_backend(name):
-    if name in ("custom_threads", "custom_procs"):
+    if name.startswith("custom_"):
         return backends()[name]()
     return name
 
